@@ -165,7 +165,9 @@ pub fn select(toks: Vec<Tok>) -> Vec<Tok> {
 /// Reload history on one endpoint context.
 /// in : [h1,h2,h3,rp] then initial hosts (5 tokens) then ops:
 ///      [1] alpn sni                 select on the current demultiplexer
-///      [2] main alts rp ping speed  reload with these hosts ([2,1] = unloadable certificate, [2,2] = duplicate host names)
+///      [2] main alts rp ping speed  reload with these hosts ([2,k] = a hosts file that must be refused: 1 a file that holds neither certificate
+///                                   nor key, 2 duplicate host names, 3 a certificate file that holds the key only (the key file is good),
+///                                   4 two main hosts with the same alternative SNI, 5 an alternative SNI that is another host's name)
 /// out: per op: select -> as above; reload -> [3, ok]
 pub fn history(toks: Vec<Tok>) -> Vec<Tok> {
     let f = &toks[0];
@@ -205,6 +207,25 @@ fn broken_hosts(kind: u128) -> TlsHostsSettings {
         format!(
             "[[main_hosts]]\nhostname = \"broken\"\ncert_chain_path = \"{0}\"\nprivate_key_path = \"{0}\"\n",
             good.replace("test_cert_key.pem", "not_a_cert.txt")
+        )
+    } else if kind == 3 {
+        // the certificate file exists and holds the key only; the key file is good
+        format!(
+            "[[main_hosts]]\nhostname = \"broken\"\ncert_chain_path = \"{1}\"\nprivate_key_path = \"{0}\"\n",
+            good,
+            crate::ctxutil::key_only_path()
+        )
+    } else if kind == 4 {
+        // two main hosts claim the same alternative SNI
+        format!(
+            "[[main_hosts]]\nhostname = \"one\"\ncert_chain_path = \"{0}\"\nprivate_key_path = \"{0}\"\nallowed_sni = [\"shared\"]\n[[main_hosts]]\nhostname = \"two\"\ncert_chain_path = \"{0}\"\nprivate_key_path = \"{0}\"\nallowed_sni = [\"other\", \"shared\"]\n",
+            good
+        )
+    } else if kind == 5 {
+        // an alternative SNI of a main host is the name of a ping host
+        format!(
+            "[[main_hosts]]\nhostname = \"one\"\ncert_chain_path = \"{0}\"\nprivate_key_path = \"{0}\"\nallowed_sni = [\"taken\"]\n[[ping_hosts]]\nhostname = \"taken\"\ncert_chain_path = \"{0}\"\nprivate_key_path = \"{0}\"\n",
+            good
         )
     } else {
         format!(
